@@ -1,6 +1,7 @@
 package rules
 
 import (
+	"strings"
 	"fmt"
 	"go/token"
 	"go/types"
@@ -15,7 +16,7 @@ func init() {
 		ID: "C13",
 		Explanation: "Ask/Reply correlation and timeout hygiene decided on SSA: (R1) correlation by construction - Reply performs exactly one blocking send of its argument on the request's own channel field; AskChannel hands the request itself to the target exactly once and returns that same field; AskOnce/AskOnceWithTimeout receive from AskChannel(self) and return the received value; the default constructor allocates a channel per request; " +
 			"(R2) the awaiting side closes the reply channel only on paths where it has already received the reply (a close on the timeout path makes a late Reply panic inside the actor); (R3) the default reply channel has constant capacity >= 1 so a late Reply is parked instead of blocking the actor, and the timeout arm returns (zero, ErrActorAskTimeout) while the reply arm returns (reply, nil). " +
-			"Not decided: that user effects reply exactly once per request; latency classes; behaviour with a caller-supplied unbuffered channel.",
+			"(R4) the awaited receive is the only consumer of the reply channel in an ask (no drain or second wait can drop this request's reply). Not decided: that user effects reply exactly once per request; latency classes; behaviour with a caller-supplied unbuffered channel.",
 		Trusted: append([]string{"the effect replies at most once per request"}, commonTrusted...),
 		Run:     runC13,
 		Relies: []Dep{
@@ -30,6 +31,7 @@ func runC13(c *core.Ctx) {
 	c.Rule("R1", "correlation: Reply sends once (blocking) on the request's own channel; AskChannel sends the request itself to the target once and returns that channel; AskOnce* receive from AskChannel(self) and return the received value; default constructor makes a channel per request", 5)
 	c.Rule("R2", "the reply channel is closed by the asker only after the reply has been received on that path", 2)
 	c.Rule("R3", "default reply channel is buffered (constant capacity >= 1); timeout arm returns (zero, ErrActorAskTimeout), reply arm returns (reply, nil)", 2)
+	c.Rule("R4", "the awaited receive is the only consumer of the reply channel in an ask: no other receive (a drain, a peek, a second wait - in the method or in a helper handed the channel) can take the reply off the channel and drop it", 2)
 	const chField = "AskDef.ch"
 	// ---- Reply
 	if f := p.Method(p.Fpgo, "AskDef", "Reply"); f == nil {
@@ -147,6 +149,51 @@ func runC13(c *core.Ctx) {
 					timerRet = &rc
 				}
 			}
+		}
+		// R4: sole consumer
+		{
+			nRecv, where := 0, ""
+			countIn := func(g *ssa.Function, is func(ssa.Value) bool) {
+				core.Instrs(g, func(ins ssa.Instruction) {
+					switch x := ins.(type) {
+					case *ssa.UnOp:
+						if x.Op == token.ARROW && is(x.X) {
+							nRecv++
+							where += " " + p.InstrPos(ins)
+						}
+					case *ssa.Select:
+						for _, st := range x.States {
+							if st.Dir == types.RecvOnly && is(st.Chan) {
+								nRecv++
+								where += " " + p.InstrPos(ins)
+							}
+						}
+					case *ssa.Range:
+						if is(x.X) {
+							nRecv += 2
+							where += " " + p.InstrPos(ins)
+						}
+					}
+				})
+			}
+			countIn(f, isCh)
+			core.Instrs(f, func(ins ssa.Instruction) {
+				call, ok := ins.(*ssa.Call)
+				if !ok || call == chCall {
+					return
+				}
+				g := core.Callee(&call.Call)
+				if g == nil || !p.InRepo(g) || len(g.Blocks) == 0 {
+					return
+				}
+				for i, a := range call.Call.Args {
+					if isCh(a) && i < len(g.Params) {
+						prm := g.Params[i]
+						countIn(g, func(v ssa.Value) bool { return core.Resolve(v) == ssa.Value(prm) })
+					}
+				}
+			})
+			c.Check(nRecv <= 1, "R4", key+"/sole-receive", p.Pos(f.Pos()), fmt.Sprintf("%d receive on the reply channel", nRecv), fmt.Sprintf("%d receives on the reply channel of one ask (%s): the reply to this request can be taken off the channel by the other receive and dropped - the asker then waits for a second reply that never comes (timeout although the actor answered)", nRecv, strings.TrimSpace(where)))
 		}
 		c.Check(selfOK && retOK, "R1", key, p.Pos(f.Pos()), "receives from AskChannel(self, target) and returns the received value", fmt.Sprintf("%s (self/target passed through=%v): the asker can get another request's answer", detail, selfOK))
 		// R2 closes
